@@ -97,6 +97,18 @@ def run(ck):
                     okm, why = False, 'parameter %s is multiplied before being reduced' % me.text(opnd)
         ck.ob('C12.modexp', 'C12.modexp/no-wrap#%d' % (muls.index(m) + 1), okm and mod_bits == 32, me.loc(m),
               'both factors of %s are 64-bit values below a 32-bit modulus, so the product cannot wrap%s' % (me.text(m), (' — ' + why) if why else ''))
+    # the agreed scalar is the modexp result and nothing else: no branch substitutes another value for it
+    ds = P.fn(KE + 'derive_shared_secret')
+    mx_ = [i for i in ds.walk() if ds.nodes[i].get('callee') == KE + 'modexp']
+    subst = []
+    for i in ds.walk():
+        nd_ = ds.nodes[i]
+        if nd_['k'] == 'VarDecl' and nd_.get('init') is not None and nd_['init'] >= 0 and any(ds.is_in(m_, nd_['init']) or m_ == ds.strip(nd_['init']) for m_ in mx_):
+            for kind_, rhs_, site_ in all_defs(ds, nd_['d']):
+                if kind_ != 'init':
+                    subst.append(site_)
+    ck.ob('C12.dh', 'C12.dh/shared-scalar-is-the-modexp-result', len(mx_) == 1 and not subst, ds.loc(subst[0]) if subst else ds.loc(),
+          'derive_shared_secret hashes modexp(peer public, own scalar, p) itself: the value is never replaced on some branch (both ends must compute the same number)')
     # a (re-)handshake always installs the key it derived: the table entry is overwritten on every path
     PKM = ck.prog(['src/network/KeyManager.cpp'])
     rg = PKM.fn(KM + 'register_session_with_material')
